@@ -7,6 +7,7 @@ import (
 	"errors"
 	"fmt"
 	"io"
+	"math"
 	"strconv"
 	"strings"
 	"sync"
@@ -1476,6 +1477,18 @@ func (ro *RedisOutput) bisyncStartPoint(ctx context.Context, runIDs []string) (S
 		if err != nil {
 			return sp, 0, false, err
 		}
+		// Every return of the root checkpoint below restarts the unit numbering at 1. The
+		// snapshot and journal of the previous numbering must not survive it: recovery would
+		// combine them with the new records (stale snapshot seq S + new units S+1.. committed
+		// while new units 1..S are still in flight => the next start skipped those).
+		restartFromRoot := func() (StartPoint, int64, bool, error) {
+			if snapshot != nil || len(records) > 0 {
+				if err := ro.purgeBisyncRecoveryState(cli, checkpointName, slots, runIDs); err != nil {
+					return sp, 0, false, err
+				}
+			}
+			return rootStartPoint, 0, true, nil
+		}
 		if frontier != nil && frontier.UnitSeq > 0 {
 			ro.clearBisyncFrontierMiss(rootStartPoint.RunId)
 			sp = StartPoint{DbId: 0, RunId: frontier.RunID, Offset: frontier.Offset}
@@ -1484,7 +1497,7 @@ func (ro *RedisOutput) bisyncStartPoint(ctx context.Context, runIDs []string) (S
 			}
 			if ro.bisyncRootCheckpointNewer(rootStartPoint, sp, runIDs) {
 				ro.logger.Infof("bisync startpoint parallel root override: checkpoint(%s), root(%+v), frontier(%+v)", checkpointName, rootStartPoint, sp)
-				return rootStartPoint, 0, true, nil
+				return restartFromRoot()
 			}
 			// Recovery may consume the first post-snapshot journal records to rebuild
 			// the durable frontier. Once that frontier is selected, those journal
@@ -1496,7 +1509,7 @@ func (ro *RedisOutput) bisyncStartPoint(ctx context.Context, runIDs []string) (S
 		ro.markBisyncFrontierMiss(rootStartPoint.RunId)
 		ro.logger.Warnf("bisync startpoint parallel miss: checkpoint(%s), slots(%d), runIDs(%v)", checkpointName, len(slots), runIDs)
 		ro.logger.Infof("bisync startpoint parallel fallback: checkpoint(%s), start(%+v)", checkpointName, rootStartPoint)
-		return rootStartPoint, 0, true, nil
+		return restartFromRoot()
 	}
 
 	best, recordCount, err := checkpoint.LoadBisyncLatestStartRecord(cli, checkpointName, slots, runIDs)
@@ -1515,6 +1528,48 @@ func (ro *RedisOutput) bisyncStartPoint(ctx context.Context, runIDs []string) (S
 	}
 	ro.logger.Infof("bisync startpoint latest selected: mode(%s), checkpoint(%s), start(%+v), seq(%d), slot(%d)", ro.cfg.ReplayMode, checkpointName, sp, best.UnitSeq, best.Slot)
 	return sp, best.UnitSeq, true, nil
+}
+
+// purgeBisyncRecoveryState deletes the commit journal (records and index members) and then
+// the frontier snapshot of a namespace whose unit numbering is about to restart.
+func (ro *RedisOutput) purgeBisyncRecoveryState(cli client.Redis, checkpointName string, slots []uint16, runIDs []string) error {
+	records, err := checkpoint.LoadBisyncCommitRecords(cli, checkpointName, slots, runIDs, math.MinInt64)
+	if err != nil {
+		return err
+	}
+	keys := make([]string, 0, len(records))
+	indexMembers := make(map[string][]interface{})
+	seen := make(map[string]struct{}, len(records))
+	for _, record := range records {
+		if record == nil || !checkpoint.IsBisyncCommitKey(record.Key) {
+			continue
+		}
+		if _, ok := seen[record.Key]; ok {
+			continue
+		}
+		seen[record.Key] = struct{}{}
+		keys = append(keys, record.Key)
+		indexKey := checkpoint.BisyncCommitIndexKey(checkpointName, checkpoint.BisyncSlotTag(record.Slot))
+		indexMembers[indexKey] = append(indexMembers[indexKey], record.Key)
+	}
+	if len(keys) > 0 {
+		if err := checkpoint.DeleteBisyncCommitKeys(cli, keys); err != nil {
+			return err
+		}
+		batcher := cli.NewBatcher(false)
+		for indexKey, members := range indexMembers {
+			args := append([]interface{}{indexKey}, members...)
+			if err := batcher.Put("zrem", args...); err != nil {
+				return err
+			}
+		}
+		if _, err := batcher.Exec(); err != nil {
+			return err
+		}
+	}
+	// the snapshot goes last: while it exists a start interrupted here never sees a journal gap
+	_, err = cli.Do("del", checkpoint.BisyncFrontierKey(checkpointName))
+	return err
 }
 
 func (ro *RedisOutput) bisyncRootCheckpointNewer(root StartPoint, selected StartPoint, runIDs []string) bool {
